@@ -11,7 +11,7 @@ def q(s):
 
 
 def main():
-    classes, edges, chanops, nfun = [], [], [], None
+    classes, edges, chanops, accesses, nfun = [], [], [], [], None
     for line in open(sys.argv[1]):
         fs = line.split()
         if not fs or fs[0].startswith("#"):
@@ -22,6 +22,12 @@ def main():
             edges.append((fs[1], fs[2], fs[3]))
         elif fs[0] == "chanop" and len(fs) == 3:
             chanops.append((fs[1], fs[2]))
+        elif fs[0] == "access" and len(fs) == 5 and fs[2] in ("r", "w", "a"):
+            held = [] if fs[4] == "-" else [tuple(h.rsplit(":", 1)) for h in fs[4].split(",")]
+            if any(len(h) != 2 or h[1] not in ("R", "W") for h in held):
+                sys.stderr.write("unexpected fact: " + line)
+                sys.exit(1)
+            accesses.append((fs[1], fs[2], fs[3], held))
         elif fs[0] == "functions" and len(fs) == 2:
             nfun = int(fs[1])
         else:
@@ -40,7 +46,14 @@ def main():
           ";\n   ".join("(%s, %s, %s)" % (q(a), q(b), q(f)) for a, b, f in edges) + "].\n")
     print("(* (held, function): a channel operation that can block is performed, there or in a callee, while [held] is held *)")
     print("Definition lock_chanops : list (string * string) :=\n  [" +
-          ";\n   ".join("(%s, %s)" % (q(a), q(f)) for a, f in chanops) + "].")
+          ";\n   ".join("(%s, %s)" % (q(a), q(f)) for a, f in chanops) + "].\n")
+    print("(* (Type.field, kind, function, held): an access - r read, w write (assignment, map insert / delete, ++, address")
+    print("   taken), a through sync/atomic - to a field of one of the package's struct types inside the function, and the")
+    print("   mutexes that are certainly held there (true = exclusively, false = shared); what a function holds on entry is")
+    print("   what all its call sites hold *)")
+    print("Definition lock_accesses : list (string * string * string * list (string * bool)) :=\n  [" +
+          ";\n   ".join("(%s, %s, %s, [%s])" % (q(a), q(k), q(f), "; ".join("(%s, %s)" % (q(c), "true" if m == "W" else "false") for c, m in h))
+                         for a, k, f, h in accesses) + "].")
 
 
 main()
